@@ -81,6 +81,22 @@ def facts(repo):
     if len(calls) != 1:
         raise TranslateError("get_lexer: expected exactly one Lexer(environment) call")
 
+    # get_lexer must not write onto the (shared, cached) lexer object
+    stores = []
+    for n in ast.walk(gl):
+        targets = []
+        if isinstance(n, ast.Assign):
+            targets = n.targets
+        elif isinstance(n, (ast.AugAssign, ast.AnnAssign)):
+            targets = [n.target]
+        for tg in targets:
+            for m in ast.walk(tg):
+                if isinstance(m, ast.Attribute) and isinstance(m.ctx, ast.Store):
+                    stores.append(m.attr)
+        if isinstance(n, ast.Call) and isinstance(n.func, ast.Name) and n.func.id == "setattr":
+            stores.append("<setattr>")
+    f["get_lexer_stores"] = stores
+
     init = _func(lexer, "__init__", "Lexer")
     cr = _func(lexer, "compile_rules")
     if _uses_bare_env(init) and not all(
@@ -114,7 +130,9 @@ def facts(repo):
     for a in call.args[1:]:
         if isinstance(a, ast.Name):
             args.append(a.id)
-        elif isinstance(a, ast.Call) and isinstance(a.func, ast.Name) and a.func.id == "frozenset" and len(a.args) == 1 and isinstance(a.args[0], ast.Name):
+        elif (isinstance(a, ast.Call) and isinstance(a.func, ast.Name) and a.func.id in ("frozenset", "tuple", "list", "set")
+              and len(a.args) == 1 and not a.keywords and isinstance(a.args[0], ast.Name)):
+            # a container conversion of the parameter (made hashable / ordered for the lru_cache key)
             args.append(a.args[0].id)
         elif isinstance(a, ast.Constant):
             args.append("<const>")
@@ -167,6 +185,7 @@ Open Scope string_scope.
 Definition lexer_key : list string := %s.
 Definition lexer_reads : list string := %s.
 Definition lexer_other : list string := %s.
+Definition get_lexer_stores : list string := %s.
 Definition new_params : list string := %s.
 Definition new_args : list string := %s.
 Definition init_params : list string := %s.
@@ -188,8 +207,8 @@ Fixpoint forallb2 (f : string -> string -> bool) (a b : list string) : bool :=
 (* every attribute the lexer constructor reads is part of the cache key: two environments
    that get the same cached Lexer are indistinguishable to Lexer.__init__ / compile_rules,
    and no other code of lexer.py looks at an environment *)
-Lemma lexer_cache_transparent : subset lexer_reads lexer_key = true /\\ lexer_other = [].
-Proof. vm_compute. split; reflexivity. Qed.
+Lemma lexer_cache_transparent : subset lexer_reads lexer_key = true /\\ lexer_other = [] /\\ get_lexer_stores = [].
+Proof. vm_compute. repeat split; reflexivity. Qed.
 
 (* the options the lexer reads are exactly the fields of the model's configuration record *)
 Lemma lexer_reads_are_model_fields : subset lexer_reads model_fields = true /\\ subset model_fields lexer_key = true.
@@ -213,7 +232,7 @@ Proof. vm_compute. repeat split; reflexivity. Qed.
 
 
 def coq_text(f):
-    vals = [coq_list(f[k]) for k in ("lexer_key", "lexer_reads", "lexer_other", "new_params", "new_args", "init_params",
+    vals = [coq_list(f[k]) for k in ("lexer_key", "lexer_reads", "lexer_other", "get_lexer_stores", "new_params", "new_args", "init_params",
                                      "init_attrs", "overlay_params", "overlay_special")] + [coq_list(MODEL_FIELDS)]
     return _TEMPLATE % tuple(vals)
 
